@@ -305,6 +305,25 @@ int decide(SimThread* st, int kind, bool forced, bool can_self) {
         if (!others.empty() && (forced || g.srng.chance(g.rw_p))) target = others[g.srng.below(others.size())];
         break;
       }
+      case ST_LOCKSTEP: {
+        // rounds: every thread runs its operation k before anybody runs operation k+1 (cyclic id order), plus a few
+        // preemptions inside operations after which the round simply goes on with the next thread. Epoch-based progress needs
+        // every thread to act once per epoch, which random operation orders rarely sustain for several epochs in a row.
+        if (forced || kind == K_OP) {
+          const int nx = next_after(st->id);
+          if (nx >= 0) target = nx;
+        } else {
+          for (auto& p : g.pre) {
+            if (!p.used && p.victim == st->id && st->weighted >= p.pos) {
+              p.used = true;
+              const int nx = next_after(st->id);
+              if (nx >= 0) { target = nx; g.stats.preemptions++; }
+              break;
+            }
+          }
+        }
+        break;
+      }
       case ST_RR: {
         if (!others.empty() && (forced || (st->consecutive % static_cast<uint32_t>(g.rr_q)) == 0)) {
           int nx = next_after(st->id);
@@ -569,7 +588,8 @@ void run_begin(const Case& c, const std::vector<uint32_t>* measured_len) {
   };
   g.pre.clear(); g.pct_changes.clear(); g.pct_next = 0; g.pct_low = 0;
   if (!g.explicit_sched && nthreads > 0) {
-    if (g.strategy == ST_PB) {
+    if (g.strategy == ST_LOCKSTEP) g.stats.bump("lockstep_schedules");
+    if (g.strategy == ST_PB || g.strategy == ST_LOCKSTEP) {
       for (int64_t i = 0; i < sparam; i++) {
         // low-discrepancy position over the victim's measured length (stratified by schedule index)
         const int victim = 1 + static_cast<int>((j + static_cast<uint64_t>(i) * 7 + g.srng.below(nthreads)) % nthreads);
